@@ -216,10 +216,10 @@ class LogSpy(logging.Handler):
         self.records.append((record.levelno, getattr(record, 'type', None), record.getMessage()))
 
 
-def atom_enc(key, d, ptm=None):
+def atom_enc(key, d):
     attrs = [[k, val(v)] for k, v in d.items() if k not in SKIP_ATTRS]
     return [key, d.get('atomname'), elcode(d.get('element')), attrs,
-            bool(d.get('PTM_atom')) if ptm is None else ptm]
+            None if 'PTM_atom' not in d else int(bool(d['PTM_atom']))]
 
 
 def snapshot_reference(mol, rg):
@@ -229,7 +229,7 @@ def snapshot_reference(mol, rg):
         node = rg.nodes[residx]
         ref = node['reference']
         idx = {n: i for i, n in enumerate(ref.nodes)}
-        bnodes = [atom_enc(idx[n], ref.nodes[n], False) for n in ref.nodes]
+        bnodes = [atom_enc(idx[n], ref.nodes[n]) for n in ref.nodes]
         bedges = [[idx[u], idx[v]] for u, v in ref.edges]
         found = sorted(node['found'].nodes)
         match = [[idx[r], k] for r, k in node['match'].items()]
@@ -362,7 +362,8 @@ def oracle(mol_in, info, res):
                 break
         # (3) every block atom is present afterwards (bonded as in the block by (2))
         originally = [k for k in recog if k in mol_in.nodes]
-        absent = sorted(set(bname) - set(names))
+        # (block atoms contributed by a requested modification are marked PTM_atom by the reference itself)
+        absent = sorted({nm for nm, n in bname.items() if not ref.nodes[n].get('PTM_atom')} - set(names))
         if absent:
             comp_ok = True
             for comp in nx.connected_components(ref):
@@ -496,6 +497,9 @@ def gen_specs(rng):
             ]
             if not chk.thorough:
                 pres = rng.sample(pres[:6], 3) + rng.sample(pres[6:], 4)
+                if big and b not in aa:
+                    # name-scrambled symmetric lipids/sugars above 20 atoms run into the ISMAGS time-out: thorough tier only
+                    pres = [p for p in pres if p.get('names', 'keep') in ('keep', 'swap')]
             for p in pres:
                 r = dict(ff=ffname, block=b, **p)
                 spec = dict(residues=[r], seed=rng.randrange(10 ** 9), keys=rng.choice(['dense', 'sparse', 'random']),
@@ -524,8 +528,9 @@ def gen_specs(rng):
     for ffname in ('charmm', 'amber'):
         ff, good = FFS[ffname]
         prot = [b for b in aa if b in good]
+        small = [b for b in prot if len(good[b]) <= 14]
         for _ in range(40 if chk.thorough else 8):
-            a, b = rng.sample(prot, 2)
+            a, b = rng.sample(prot if chk.thorough else small, 2)
             r = dict(ff=ffname, block=a, mutate=b, names=rng.choice(['keep', 'keep', 'x']), perm=rng.random() < 0.5,
                      missing_h=rng.randint(0, 2))
             if len(good[a]) > 20 and r['names'] != 'keep':
